@@ -295,10 +295,15 @@ void determineUnitRangesLoopGraph(GraphTy& graph, uint32_t unitsToSplit,
       returnRanges[i + 1] = returnRanges[i];
     }
 
+    // an empty unit at the end starts at the node count: do not ask the graph
+    // for the edges of a node that does not exist (the arguments are
+    // evaluated in release builds too)
     galois::gDebug("LoopGraph Unit ", i, " gets nodes ", returnRanges[i],
                    " to ", returnRanges[i + 1], ", num edges is ",
-                   graph.edge_end(returnRanges[i + 1] - 1) -
-                       graph.edge_begin(returnRanges[i]));
+                   returnRanges[i] == returnRanges[i + 1]
+                       ? 0
+                       : graph.edge_end(returnRanges[i + 1] - 1) -
+                             graph.edge_begin(returnRanges[i]));
   }
 }
 
